@@ -364,9 +364,79 @@ pub struct StreamExec {
     kind: String,
 }
 
+/// A descriptor sink that takes LESS than it is offered: a non-blocking socket with the smallest send buffer whose peer
+/// does not read.  The adapter must report what the kernel took (it is then drained and compared); std on a twin
+/// socket is run next to it.
+fn full_sock(line: &Value) -> Value {
+    use std::os::fd::AsRawFd;
+    let len = us(line, "len");
+    let exact = line["a"]["exact"].as_bool().unwrap_or(false);
+    let buf: Vec<u8> = (0..len).map(|i| (i % 251) as u8 + 1).collect();
+    let mk_pair = || {
+        let (tx, rx) = UnixStream::pair().expect("harness: socketpair");
+        let v: libc::c_int = 1;
+        unsafe { libc::setsockopt(tx.as_raw_fd(), libc::SOL_SOCKET, libc::SO_SNDBUF, &v as *const _ as *const libc::c_void, 4) };
+        tx.set_nonblocking(true).unwrap();
+        rx.set_nonblocking(true).unwrap();
+        (tx, rx)
+    };
+    let drain = |rx: &mut UnixStream| {
+        let mut got = Vec::new();
+        let mut tmp = [0u8; 4096];
+        while let Ok(n) = rx.read(&mut tmp) {
+            if n == 0 {
+                break;
+            }
+            got.extend_from_slice(&tmp[..n]);
+        }
+        got
+    };
+    let ioerr = |e: &std::io::Error| json!({"k": "err", "io": format!("{:?}", e.kind())});
+    // the adapter
+    let (mut tx, mut rx) = mk_pair();
+    let mut own = buf.clone();
+    let vs = VolatileSlice::from(&mut own[..]);
+    let rv = guarded(|| {
+        if exact {
+            match tx.write_all_volatile(&vs) {
+                Ok(()) => json!({"k": "ok", "n": len}),
+                Err(VolatileMemoryError::IOError(e)) => ioerr(&e),
+                Err(e) => json!({"k": "err", "io": format!("{e:?}")}),
+            }
+        } else {
+            match tx.write_volatile(&vs) {
+                Ok(n) => json!({"k": "ok", "n": n}),
+                Err(VolatileMemoryError::IOError(e)) => ioerr(&e),
+                Err(e) => json!({"k": "err", "io": format!("{e:?}")}),
+            }
+        }
+    });
+    let got_v = drain(&mut rx);
+    // std on a twin socket
+    let (mut tx2, mut rx2) = mk_pair();
+    let rs = if exact {
+        match tx2.write_all(&buf) {
+            Ok(()) => json!({"k": "ok", "n": len}),
+            Err(e) => ioerr(&e),
+        }
+    } else {
+        match tx2.write(&buf) {
+            Ok(n) => json!({"k": "ok", "n": n}),
+            Err(e) => ioerr(&e),
+        }
+    };
+    let got_s = drain(&mut rx2);
+    json!({"op": "full_sock", "a": line["a"],
+           "r": {"vol": rv, "std": rs, "delivered": got_v.len(), "delivered_std": got_s.len(), "prefix": got_v[..] == buf[..got_v.len().min(len)]},
+           "s": {"vol": {"data": [], "pos": 0}, "std": {"data": [], "pos": 0}}})
+}
+
 impl Exec for StreamExec {
     fn step(&mut self, line: &Value) -> Value {
         let op = line["op"].as_str().expect("op");
+        if op == "full_sock" {
+            return full_sock(line);
+        }
         if op == "init" {
             let kind = s(line, "kind");
             let data: Vec<u8> = line["a"]["data"].as_array().expect("harness: data").iter().map(|x| x.as_u64().unwrap() as u8).collect();
